@@ -237,10 +237,16 @@ pub struct Obs {
     pub fired: BTreeMap<String, u32>,
     #[serde(default)]
     pub panicked: bool,
+    /// per-run monitor counters (operations checked by c15 / c16, ...)
+    #[serde(default)]
+    pub counters: BTreeMap<String, u64>,
 }
 
 #[derive(Clone, Debug, Serialize, Deserialize, Default, PartialEq)]
 pub struct MonitorHit {
+    /// finer classification by the monitor (shape of the failing operation); empty = the monitor's default class
+    #[serde(default)]
+    pub class: String,
     pub monitor: String,
     pub node: usize,
     pub op: usize,
